@@ -742,12 +742,22 @@ pub fn run_case(p: &mut Popen, c: &Case) -> CaseOut {
             return;
         }
         let mut comm = p.communicate_start(input.clone());
+        // two calling styles: the limits are given again before every read, or only when they change (set once, read many:
+        // a limit stays in force for all later reads, each of which gets the full time again)
+        let rearm_each_time = c.wseed & 1 == 0;
+        let (mut cur_lim, mut cur_tl): (Option<usize>, Option<u64>) = (None, None);
         for (lim, tl) in &session {
             if let Some(l) = lim {
-                comm = comm.limit_size(*l);
+                if rearm_each_time || cur_lim != Some(*l) {
+                    comm = comm.limit_size(*l);
+                    cur_lim = Some(*l);
+                }
             }
             if let Some(t) = tl {
-                comm = comm.limit_time(Duration::from_nanos(*t));
+                if rearm_each_time || cur_tl != Some(*t) {
+                    comm = comm.limit_time(Duration::from_nanos(*t));
+                    cur_tl = Some(*t);
+                }
             }
             w.events.push(format!(
                 "s:{}:{}",
@@ -758,7 +768,17 @@ pub fn run_case(p: &mut Popen, c: &Case) -> CaseOut {
             w.first_clock_pending = *tl;
             w.calls_past_deadline = 0;
             let t_start = w.now;
-            let r = comm.read();
+            let r = match std::panic::catch_unwind(std::panic::AssertUnwindSafe(|| comm.read())) {
+                Ok(r) => r,
+                Err(_) => {
+                    // no result at all: whatever the limits were, a read either returns data or an error
+                    let which = if lim.is_some() { "C03" } else { "C02" };
+                    w.problem(which, format!("read() panicked (size limit {:?}, time limit {:?} ns)", lim, tl));
+                    w.events.push("r:panic".to_string());
+                    results.push("panic:?".to_string());
+                    break;
+                }
+            };
             let (tag, out, err) = match r {
                 Ok((o, e)) => ("ok".to_string(), o, e),
                 Err(e) => {
@@ -1085,7 +1105,7 @@ pub fn gen_case(rng: &mut Rng, idx: usize, big: bool) -> Case {
         let use_time = kind % 2 == 1 || kind >= 9;
         for _ in 0..nreads {
             if use_size && rng.chance(2, 3) {
-                lim = Some(*rng.pick(&[1usize, 2, 100, 4095, 4096, 4097, 8191, 8192, 70_000, produced.max(1), produced + 1]));
+                lim = Some(*rng.pick(&[1usize, 2, 100, 4095, 4096, 4097, 8191, 8192, 70_000, produced.max(1), produced + 1, usize::MAX, usize::MAX - 1]));
             }
             if use_time && rng.chance(2, 3) {
                 tl = Some(*rng.pick(&[
